@@ -35,9 +35,10 @@ type PropSpec struct {
 }
 
 type LemmaSpec struct {
-	Name string
-	Pkg  string
-	Src  string
+	Name    string
+	Pkg     string
+	Src     string
+	DecFull bool
 }
 
 type CensusSpec struct {
@@ -88,6 +89,11 @@ func parsePropSpec(path string) (*PropSpec, error) {
 			curLemma = &LemmaSpec{Name: fs[1]}
 			if len(fs) > 3 && fs[2] == "pkg" {
 				curLemma.Pkg = fs[3]
+			}
+			for _, o := range fs[2:] {
+				if o == "decfull" {
+					curLemma.DecFull = true
+				}
 			}
 		case "census":
 			flush()
